@@ -1,36 +1,73 @@
 #!/usr/bin/env python3
-"""seed_recheck.py [seed dir names..] — regression of the machinery itself: every stored seeded change (seeded/<Cxx>_<v>/patch.diff) is
-applied to a scratch copy of /repo and the check of its property is run (no cargo build, no demo: those were confirmed when the seed
-was stored). Prints one line per seed: exit code (1 = caught, 2 = undecided, 0 = not noticed) and the first failing obligation.
-Patches that no longer apply to the current /repo are reported as such (the code they changed has moved on)."""
-import json, os, subprocess, sys
+"""seed_recheck.py [--jobs N] [seed dir names..] — regression of the machinery itself: every stored seeded change
+(seeded/<Cxx>_<v>/patch.diff) is applied to a scratch copy of /repo and the check of its property is run (no cargo build, no demo:
+those were confirmed when the seed was stored). Prints one line per seed: exit code (1 = caught, 2 = undecided, 0 = not noticed) and
+the first failing obligation. Patches that no longer apply to the current /repo are reported as such (the code they changed has moved
+on). --jobs N: N seeds at a time, each worker in a scratch copy of its own (/tmp/seedrepo_<k>; check.py keeps the build files of
+different scratch copies apart)."""
+import os, queue, subprocess, sys, threading
 
 ROOT = os.path.dirname(os.path.abspath(__file__))
 D = "/tmp/seedrepo"
+LOCK = threading.Lock()
+
+
+def say(s):
+    with LOCK:
+        print(s)
+        sys.stdout.flush()
+
+
+def one(n, d):
+    sd = os.path.join(ROOT, "seeded", n)
+    patch = os.path.join(sd, "patch.diff")
+    if not os.path.isfile(patch):
+        return
+    prop = n.split("_")[0]
+    rs = subprocess.run(["rsync", "-a", "--delete", "--exclude", "target", "--exclude", ".git/worktrees", "/repo/", d + "/"], stdout=subprocess.DEVNULL, stderr=subprocess.DEVNULL)
+    if rs.returncode not in (0, 24):   # 24: a file vanished while copying (lock files of a worktree in use elsewhere)
+        say(f"{n:8} rsync failed ({rs.returncode})")
+        return
+    r = subprocess.run(["git", "apply", patch], cwd=d, capture_output=True, text=True)
+    if r.returncode != 0:
+        say(f"{n:8} does-not-apply")
+        return
+    env = dict(os.environ, VERIF_REPO=d)
+    r = subprocess.run([sys.executable, os.path.join(ROOT, "check.py"), prop, "quick"], capture_output=True, text=True, env=env)
+    ob = [l.strip() for l in r.stdout.splitlines() if "failed obligation" in l]
+    und = [l for l in r.stdout.splitlines() if l.startswith("UNDECIDED")]
+    first = ob[0][:160] if ob else (und[0][:160] if und else "")
+    say(f"{n:8} exit={r.returncode} {first}")
+    subprocess.run(["git", "checkout", "-q", "--", "."], cwd=d)
 
 
 def main():
-    names = sys.argv[1:] or sorted(os.listdir(os.path.join(ROOT, "seeded")))
+    args = sys.argv[1:]
+    jobs = 1
+    if args[:1] == ["--jobs"]:
+        jobs = int(args[1])
+        args = args[2:]
+    names = args or sorted(os.listdir(os.path.join(ROOT, "seeded")))
+    q = queue.Queue()
     for n in names:
-        sd = os.path.join(ROOT, "seeded", n)
-        patch = os.path.join(sd, "patch.diff")
-        if not os.path.isfile(patch):
-            continue
-        prop = n.split("_")[0]
-        subprocess.run(["rsync", "-a", "--delete", "--exclude", "target", "/repo/", D + "/"], check=True, stdout=subprocess.DEVNULL)
-        r = subprocess.run(["git", "apply", patch], cwd=D, capture_output=True, text=True)
-        if r.returncode != 0:
-            print(f"{n:8} does-not-apply")
-            sys.stdout.flush()
-            continue
-        env = dict(os.environ, VERIF_REPO=D)
-        r = subprocess.run([sys.executable, os.path.join(ROOT, "check.py"), prop, "quick"], capture_output=True, text=True, env=env)
-        ob = [l.strip() for l in r.stdout.splitlines() if "failed obligation" in l]
-        und = [l for l in r.stdout.splitlines() if l.startswith("UNDECIDED")]
-        first = ob[0][:160] if ob else (und[0][:160] if und else "")
-        print(f"{n:8} exit={r.returncode} {first}")
-        sys.stdout.flush()
-        subprocess.run(["git", "checkout", "-q", "--", "."], cwd=D)
+        q.put(n)
+
+    def worker(k):
+        d = D if jobs == 1 else f"{D}_{k}"
+        while True:
+            try:
+                n = q.get_nowait()
+            except queue.Empty:
+                break
+            one(n, d)
+        if jobs > 1:
+            subprocess.run(["rm", "-rf", d])
+
+    ts = [threading.Thread(target=worker, args=(k,)) for k in range(jobs)]
+    for t in ts:
+        t.start()
+    for t in ts:
+        t.join()
 
 
 if __name__ == "__main__":
